@@ -1270,7 +1270,7 @@ def fail_events(model: TopoModel):
     for l_ in sorted(model.t.links.keys())[:1]:
         targets.append(('link', l_))
     for tg in targets:
-        for pos in ('first', 'middle', 'last'):
+        for pos in ('first', 'middle', 'last', 'with-name-first', 'with-name-last'):
             ev.append(('fail', 'setprops-bad-among-good', tg, pos))
     if names:
         n0 = names[0]
@@ -1575,7 +1575,10 @@ def _do_fail(model: TopoModel, ev):
             e = t.links[tg[1]]
         good = [('details', 'new details'), ('capacities', Capacities(unit=3))]
         bad = ('labels', 'not-a-labels-object')
-        order = {'first': [bad] + good, 'middle': good[:1] + [bad] + good[1:], 'last': good + [bad]}[pos]
+        # (a new name among the values: the one property that a handle remembers, and that the collections are keyed by)
+        new_name = ('name', 'renamed-in-bulk')
+        order = {'first': [bad] + good, 'middle': good[:1] + [bad] + good[1:], 'last': good + [bad],
+                 'with-name-first': [new_name] + good + [bad], 'with-name-last': [bad] + good + [new_name]}[pos]
         e.set_properties(**dict(order))
     elif kind == 'facility-duplicate-interface-names':
         t.add_facility(name='fdup', site='S1', node_id=nid('fdup'),
